@@ -2,12 +2,27 @@
 export GOFLAGS=-mod=mod GOPROXY=off GOSUMDB=off GOTOOLCHAIN=local
 export VERIF_DIR="${VERIF_DIR:-$(cd "$(dirname "${BASH_SOURCE[0]}")/.." && pwd)}"
 export REPO_DIR="${REPO_DIR:-/repo}"
-# the harness module tracks /repo's own go.mod (same dependency versions), with
-# the repository replaced by the working tree
-genmod() {
-  ( cd "$VERIF_DIR/mc" &&
-    sed 's#^module .*#module verif/mc#' "$REPO_DIR/go.mod" > go.mod.new &&
-    cp "$REPO_DIR/go.sum" go.sum &&
-    printf '\nrequire github.com/palomachain/paloma/v2 v2.0.0\nreplace github.com/palomachain/paloma/v2 => %s\n' "$REPO_DIR" >> go.mod.new &&
-    { cmp -s go.mod.new go.mod || mv go.mod.new go.mod; rm -f go.mod.new; } )
+mkdir -p "$VERIF_DIR/build" "$VERIF_DIR/evidence" "$VERIF_DIR/replays"
+# The harness sources under $VERIF_DIR/mc are compiled as packages
+# github.com/palomachain/paloma/v2/zzverif/... of the repository's own module by
+# means of `go build -overlay` (nothing is written into $REPO_DIR). This builds
+# against the current working tree with the repository's own go.mod and gives the
+# harness access to the module's internal packages.
+genoverlay() {
+  local out="$VERIF_DIR/build/overlay.json" first=1
+  { printf '{"Replace":{'
+    ( cd "$VERIF_DIR/mc" && find . -name '*.go' | sort ) | while read -r f; do
+      f="${f#./}"
+      [ $first = 1 ] || printf ','
+      first=0
+      printf '"%s/zzverif/%s":"%s/mc/%s"' "$REPO_DIR" "$f" "$VERIF_DIR" "$f"
+    done
+    printf '}}\n'; } > "$out.tmp" && mv "$out.tmp" "$out"
+  echo "$out"
+}
+# buildprop <lc-id> [extra go build flags...]
+buildprop() {
+  local lc="$1"; shift
+  local ov; ov=$(genoverlay) || return 1
+  ( cd "$REPO_DIR" && go build -overlay "$ov" "$@" -o "$VERIF_DIR/build/$lc" "./zzverif/props/$lc" )
 }
